@@ -1,6 +1,7 @@
 package main
 
 import (
+	"sync"
 	"flag"
 	"fmt"
 	"os"
@@ -248,6 +249,75 @@ func main() {
 				c = " [contract: " + strings.Join(con.Props, ",") + "]"
 			}
 			fmt.Println(k + c)
+		}
+	case "vacuity":
+		// every labelled clause of every unit under contract must give rise to at least one obligation: a clause that never
+		// generates one is as good as absent (DESIGN 9, "call-site obligations were skipped ...")
+		w, err := loadWorld(*repo)
+		if err != nil {
+			fmt.Fprintln(os.Stderr, "ENGINE-ERROR:", err)
+			os.Exit(2)
+		}
+		var keys []string
+		for _, k := range sortedKeys(w.Contracts) {
+			con := w.Contracts[k]
+			if con.Abstract || con.Trusted || w.Funcs[k] == nil {
+				continue
+			}
+			keys = append(keys, k)
+		}
+		results := make([]*FnResult, len(keys))
+		var wg sync.WaitGroup
+		sem := make(chan struct{}, 8)
+		solverSem = make(chan struct{}, opt.Workers)
+		for i, k := range keys {
+			wg.Add(1)
+			sem <- struct{}{}
+			go func(i int, k string) {
+				defer wg.Done()
+				defer func() { <-sem }()
+				results[i] = w.verifyFn(k, opt)
+			}(i, k)
+		}
+		wg.Wait()
+		silent := 0
+		for i, k := range keys {
+			con := w.Contracts[k]
+			names := []string{}
+			for _, o := range results[i].Obs {
+				names = append(names, o.Name)
+			}
+			all := strings.Join(names, "\n")
+			miss := func(kind string, cl *Clause) {
+				if cl == nil || cl.Label == "" || cl.Assumed || cl.Def || cl.Ranked || cl.BoundedOnly {
+					return
+				}
+				if !strings.Contains(all, "["+cl.Label+"]") {
+					silent++
+					fmt.Printf("SILENT %s %s[%s] (group %q)\n", k, kind, cl.Label, cl.Group)
+				}
+			}
+			for _, cl := range con.Ensures {
+				miss("ensures", cl)
+			}
+			for _, cl := range con.AtCalls {
+				miss("atcall "+cl.Callee, cl)
+			}
+			for n, l := range con.Loops {
+				for _, cl := range l.Before {
+					miss(fmt.Sprintf("loop %d before", n), cl)
+				}
+				for _, cl := range l.Each {
+					miss(fmt.Sprintf("loop %d each", n), cl)
+				}
+				for _, cl := range l.Invariants {
+					miss(fmt.Sprintf("loop %d invariant", n), cl)
+				}
+			}
+		}
+		fmt.Printf("vacuity: %d units, %d labelled clauses without obligation\n", len(keys), silent)
+		if silent > 0 {
+			os.Exit(1)
 		}
 	case "fn":
 		w, err := loadWorld(*repo)
